@@ -698,3 +698,316 @@ func init() {
 		Desc: "7 seed encodings: every proper prefix, every single-byte deletion, every single-byte substitution from {00,01,7f,80,ff,b+1,b-1} at every offset; whatever UnmarshalVT accepts goes on to streamReader.Receive",
 		Run: wireRun(func(we *wireEnum, tier string) { we.c16Bytes() })})
 }
+
+// ---------------------------------------------------------------- C16: concurrent inbound streams
+
+// wireConcStreams: nthreads drpc handler threads run streamReader.Receive at the same time, each
+// on its own stream carrying messages of its own type for its own target. Whatever the
+// interleaving, every message must arrive with the type its indices name.
+func wireConcStreams(nthreads, perStream int) vsched.Instance {
+	var f *wireFixture
+	var errs []string
+	body := func() {
+		vsched.BeginSetup()
+		f = newWireFixture()
+		// warm-up: one well-formed envelope through the reader, so that whatever the decoding path
+		// remembers between calls (package-level caches) is in the same state at the start of
+		// every execution and executions stay independent of each other
+		{
+			data, _ := proto.Marshal(&remote.TestMessage{Data: []byte("warm-up")})
+			env := &remote.Envelope{TypeNames: []string{"remote.TestMessage"}, Targets: []*actor.PID{actor.NewPID(wireAddr, "nobody/1")}, Messages: []*remote.Message{{Data: data}}}
+			b, _ := env.MarshalVT()
+			remote.VerifRead(f.e, &remote.VerifPipe{Frames: [][]byte{b}})
+		}
+		vsched.EndSetup()
+		f.log = f.log[:0]
+		for t := 0; t < nthreads; t++ {
+			t := t
+			vsched.Go("drpc-handler", func() {
+				pipe := &remote.VerifPipe{}
+				for i := 0; i < perStream; i++ {
+					var payload proto.Message
+					var tname string
+					if t%2 == 0 {
+						payload, tname = &remote.TestMessage{Data: []byte(fmt.Sprintf("%d.%d", t, i))}, "remote.TestMessage"
+					} else {
+						payload, tname = &actor.PID{Address: "x", ID: fmt.Sprintf("%d.%d", t, i)}, "actor.PID"
+					}
+					data, _ := proto.Marshal(payload)
+					env := &remote.Envelope{TypeNames: []string{tname}, Targets: []*actor.PID{actor.NewPID(wireAddr, wireTargetIDs[t%len(wireTargetIDs)])},
+						Messages: []*remote.Message{{Data: data}}}
+					b, _ := env.MarshalVT()
+					pipe.Frames = append(pipe.Frames, b)
+				}
+				if p := catchPanic(func() {
+					if err := remote.VerifRead(f.e, pipe); err != nil {
+						vsched.Touch("errs")
+						errs = append(errs, fmt.Sprintf("stream %d: Receive returned %v", t, err))
+					}
+				}); p != "" {
+					vsched.Touch("errs")
+					errs = append(errs, fmt.Sprintf("stream %d: Receive panicked: %s", t, p))
+				}
+			})
+		}
+		vsched.Quiesce()
+	}
+	check := func(r *vsched.Result) []vsched.Violation {
+		vs := stdEnd(r)
+		if len(vs) > 0 {
+			return vs
+		}
+		for _, e := range errs {
+			vs = append(vs, V("reader/well-formed-stream-ends-with-error-or-panic", "%s", e))
+		}
+		cnt := map[string]int{}
+		for _, d := range f.log {
+			cnt[d.target]++
+			var t int
+			for i, id := range wireTargetIDs {
+				if id == d.target {
+					t = i
+				}
+			}
+			_, isTM := d.msg.(*remote.TestMessage)
+			_, isPID := d.msg.(*actor.PID)
+			if (t%2 == 0 && !isTM) || (t%2 == 1 && !isPID) {
+				vs = append(vs, V("reader/message-delivered-with-a-type-its-indices-do-not-name", "target %s received %T%v (deliveries: %s)", d.target, d.msg, d.msg, wireDeliveries(f.log)))
+			}
+		}
+		for t := 0; t < nthreads; t++ {
+			if c := cnt[wireTargetIDs[t%len(wireTargetIDs)]]; c != perStream && len(errs) == 0 {
+				vs = append(vs, V("reader/valid-message-not-delivered", "target %s received %d of %d messages", wireTargetIDs[t], c, perStream))
+			}
+		}
+		return vs
+	}
+	outcome := func() string {
+		if f == nil {
+			return ""
+		}
+		return wireDeliveries(f.log)
+	}
+	return vsched.Instance{Body: body, Check: check, Outcome: outcome}
+}
+
+func init() {
+	Register(&Job{Name: "C16/streams/two-concurrent", Prop: "C16", Bound: 2, BoundT: 3, Budget: 40, BudgetT: 600,
+		Desc: "two inbound streams handled concurrently by streamReader.Receive (as two drpc handler goroutines would), 2 well-formed envelopes each, stream 1 carrying remote.TestMessage for t/1 and stream 2 actor.PID for t/2: every message arrives with the type and at the target its own indices name, whatever the interleaving",
+		Make: func() vsched.Instance { return wireConcStreams(2, 2) }})
+	Register(&Job{Name: "C16/streams/three-concurrent", Prop: "C16", Tier: "thorough", Bound: 2, BoundT: 3, Budget: 40, BudgetT: 600,
+		Desc: "three concurrent inbound streams x 2 envelopes", Make: func() vsched.Instance { return wireConcStreams(3, 2) }})
+}
+
+// ---------------------------------------------------------------- C15: adversarial PIDs, several batches per connection
+
+var longPrefix = strings.Repeat("region-eu-west-1/cluster-7/shard-12/", 4) // 144 bytes
+
+// advSenders: pairs of different PIDs that are easy to confuse: the same concatenation split at
+// another place (around "/", ":" and NUL, the candidates for a separator), PIDs longer than any
+// small fixed buffer that differ only at the very end, and a PID that is a prefix of another.
+var advSenders = []*actor.PID{
+	nil,
+	actor.NewPID("gw:80/eu", "client/1"), actor.NewPID("gw:80", "eu/client/1"),
+	actor.NewPID("a\x00", "b"), actor.NewPID("a", "\x00b"),
+	actor.NewPID("h:1", "2/x"), actor.NewPID("h", ":12/x"),
+	actor.NewPID("10.0.0.1:4000", longPrefix+"player/alice"), actor.NewPID("10.0.0.1:4000", longPrefix+"player/bob"),
+	actor.NewPID("10.0.0.1:4000", "p"), actor.NewPID("10.0.0.1:4000", "p/q"),
+}
+
+var advTargetIDs = []string{"t/1", longPrefix + "player/alice", longPrefix + "player/bob", "t/1/x"}
+
+type advMsg struct{ t, s int }
+
+func (we *wireEnum) advBatches(n int) {
+	per := len(advTargetIDs) * len(advSenders)
+	total := 1
+	for i := 0; i < n; i++ {
+		total *= per
+	}
+	res := inWorld(func() {
+		f := &wireFixture{}
+		e, err := actor.NewEngine(actor.NewEngineConfig())
+		if err != nil {
+			panic(err)
+		}
+		f.e = e
+		for _, id := range advTargetIDs {
+			e.SpawnProc(&wireProc{pid: actor.NewPID(wireAddr, id), log: &f.log})
+		}
+		b := make([]advMsg, n)
+		for j := 0; j < total; j++ {
+			x := j
+			for k := n - 1; k >= 0; k-- {
+				b[k] = advMsg{(x % per) / len(advSenders), (x % per) % len(advSenders)}
+				x /= per
+			}
+			pipe := &remote.VerifPipe{}
+			w := remote.VerifWriter(f.e, wireAddr, pipe)
+			envs := make([]actor.Envelope, n)
+			for i, m := range b {
+				envs[i] = remote.VerifDeliver(actor.NewPID(wireAddr, advTargetIDs[m.t]), advSenders[m.s], &remote.TestMessage{Data: []byte{byte('0' + i)}})
+			}
+			f.log = f.log[:0]
+			we.rep.Evaluations++
+			we.rep.Transitions += int64(n)
+			sig, detail := "", ""
+			if p := catchPanic(func() { w.Invoke(envs); remote.VerifRead(f.e, pipe) }); p != "" {
+				sig, detail = "roundtrip/panic", p
+			} else if len(f.log) != n {
+				sig, detail = "roundtrip/message-lost", fmt.Sprintf("%d deliveries, want %d", len(f.log), n)
+			} else {
+				for i, m := range b {
+					g := f.log[i]
+					if g.target != advTargetIDs[m.t] {
+						sig, detail = "roundtrip/delivered-to-wrong-target", fmt.Sprintf("message %d for %q delivered to %q", i, advTargetIDs[m.t], g.target)
+					} else if (advSenders[m.s] == nil) != (g.sender == nil) || (g.sender != nil && !g.sender.Equals(advSenders[m.s])) {
+						sig, detail = "roundtrip/wrong-sender", fmt.Sprintf("message %d sent by %q/%q arrived with sender %q", i, addrOf(advSenders[m.s]), idOf(advSenders[m.s]), pidStr(g.sender))
+					}
+				}
+			}
+			cls := fmt.Sprintf("adversarial len%d -> ok", n)
+			if sig != "" {
+				we.fail(sig, fmt.Sprintf("batch of %d with easily confused PIDs %v: %s", n, b, detail))
+				cls = fmt.Sprintf("adversarial len%d -> %s", n, sig)
+			}
+			if we.rep.Outcomes[cls] == 0 && len(we.rep.Samples) < 6 {
+				we.rep.Samples = append(we.rep.Samples, fmt.Sprintf("targets/senders %v => %s", b, cls))
+			}
+			we.rep.Outcomes[cls]++
+		}
+	})
+	if len(res.Panics) > 0 {
+		we.fail("engine/panic-escaped-on-engine-thread", firstLine(res.Panics[0]))
+	}
+}
+
+func addrOf(p *actor.PID) string {
+	if p == nil {
+		return ""
+	}
+	return p.Address
+}
+func idOf(p *actor.PID) string {
+	if p == nil {
+		return ""
+	}
+	return p.ID
+}
+
+// multiBatches: every pair of batches (length 1..2 each, reduced pools) written one after the
+// other through ONE writer / connection and read by ONE streamReader.Receive call: what the
+// reader keeps between envelopes must not leak from one batch into the next.
+func (we *wireEnum) multiBatches() {
+	pools := wireTiny
+	sz := pools.size()
+	var batches [][]wireMsg
+	for i := 0; i < sz; i++ {
+		batches = append(batches, []wireMsg{pools.msg(i)})
+	}
+	for i := 0; i < sz; i++ {
+		for j := 0; j < sz; j++ {
+			batches = append(batches, []wireMsg{pools.msg(i), pools.msg(j)})
+		}
+	}
+	const chunk = 3000
+	total := len(batches) * len(batches)
+	for from := 0; from < total; from += chunk {
+		if time.Now().After(we.deadline) {
+			we.rep.Exhaustive = false
+			we.rep.Note += fmt.Sprintf(" time cap hit after %d of %d batch pairs;", from, total)
+			return
+		}
+		from := from
+		res := inWorld(func() {
+			f := newWireFixture()
+			for x := from; x < from+chunk && x < total; x++ {
+				b1, b2 := batches[x/len(batches)], batches[x%len(batches)]
+				we.rep.Evaluations++
+				we.rep.Transitions += int64(len(b1) + len(b2))
+				sig, detail := wireRoundTripSeq(f, [][]wireMsg{b1, b2})
+				cls := fmt.Sprintf("two batches on one connection (%s | %s) -> ok", wireClass(b1), wireClass(b2))
+				if sig != "" {
+					we.fail(sig, detail)
+					cls = "two batches on one connection -> " + sig
+				}
+				if we.rep.Outcomes[cls] == 0 && len(we.rep.Samples) < 6 {
+					we.rep.Samples = append(we.rep.Samples, fmt.Sprintf("%v then %v => %s", b1, b2, cls))
+				}
+				we.rep.Outcomes[cls]++
+			}
+		})
+		if len(res.Panics) > 0 {
+			we.fail("engine/panic-escaped-on-engine-thread", firstLine(res.Panics[0]))
+		}
+	}
+}
+
+// wireRoundTripSeq writes the batches one after the other through one writer and reads them
+// back with one Receive call; reference = concatenation of the per-batch references.
+func wireRoundTripSeq(f *wireFixture, bs [][]wireMsg) (string, string) {
+	pipe := &remote.VerifPipe{}
+	w := remote.VerifWriter(f.e, wireAddr, pipe)
+	type want struct {
+		target string
+		sender *actor.PID
+		msg    any
+	}
+	var wants []want
+	f.log = f.log[:0]
+	for _, b := range bs {
+		envs := make([]actor.Envelope, len(b))
+		for i, m := range b {
+			pl, ok := wirePayload(m.p)
+			snd := wireSender(m.s)
+			envs[i] = remote.VerifDeliver(actor.NewPID(wireAddr, wireTargetIDs[m.t]), snd, pl)
+			if ok {
+				wants = append(wants, want{wireTargetIDs[m.t], snd, pl})
+			}
+		}
+		if p := catchPanic(func() { w.Invoke(envs) }); p != "" {
+			return "writer/panic-in-Invoke", fmt.Sprintf("batches %v: %s", bs, p)
+		}
+	}
+	var rerr error
+	if p := catchPanic(func() { rerr = remote.VerifRead(f.e, pipe) }); p != "" {
+		return "reader/panic-in-Receive", fmt.Sprintf("batches %v: %s", bs, p)
+	}
+	if rerr != nil {
+		return "reader/error-on-own-encoding", fmt.Sprintf("batches %v: Receive returned %v", bs, rerr)
+	}
+	if len(f.log) != len(wants) {
+		return "roundtrip/message-lost-or-phantom", fmt.Sprintf("batches %v: %d deliveries, want %d (%s)", bs, len(f.log), len(wants), wireDeliveries(f.log))
+	}
+	for i, wv := range wants {
+		g := f.log[i]
+		if g.target != wv.target {
+			return "roundtrip/delivered-to-wrong-target", fmt.Sprintf("batches %v: message %d delivered to %s, want %s", bs, i, g.target, wv.target)
+		}
+		if gm, ok := g.msg.(proto.Message); !ok || fmt.Sprintf("%T", g.msg) != fmt.Sprintf("%T", wv.msg) || !proto.Equal(gm, wv.msg.(proto.Message)) {
+			return "roundtrip/payload-differs", fmt.Sprintf("batches %v: message %d arrived as %T%v", bs, i, g.msg, g.msg)
+		}
+		switch {
+		case wv.sender == nil && g.sender != nil:
+			return "roundtrip/senderless-message-arrives-with-a-sender", fmt.Sprintf("batches %v: message %d sent without sender arrived with %s (a sender of an earlier batch?)", bs, i, pidStr(g.sender))
+		case wv.sender != nil && (g.sender == nil || !wv.sender.Equals(g.sender)):
+			return "roundtrip/wrong-sender", fmt.Sprintf("batches %v: message %d sent by %s arrived with sender %s", bs, i, pidStr(wv.sender), pidStr(g.sender))
+		}
+	}
+	return "", ""
+}
+
+func init() {
+	Register(&Job{Name: "C15/wire/adversarial-pids", Prop: "C15", Kind: "direct", Budget: 50, BudgetT: 300,
+		Desc: "all batches of length 1-2 over 4 targets x 11 senders chosen to be easily confused: the same address+id concatenation split elsewhere (around '/', ':' and NUL), PIDs of ~160 bytes that differ only in the last segment, a PID that is a prefix of another",
+		Run: wireRun(func(we *wireEnum, tier string) {
+			we.advBatches(1)
+			we.advBatches(2)
+			if tier == "thorough" {
+				we.advBatches(3)
+			}
+		})})
+	Register(&Job{Name: "C15/wire/two-batches-one-connection", Prop: "C15", Kind: "direct", Budget: 50, BudgetT: 600,
+		Desc: "every ordered pair of batches (length 1-2 over 2 targets x 3 senders x 3 payloads: 342 batches, 116964 pairs) written through one writer and read by one streamReader.Receive call",
+		Run: wireRun(func(we *wireEnum, tier string) { we.multiBatches() })})
+}
